@@ -61,6 +61,32 @@ def pushU8Slice (c0 : Compact) (slice : List Nat) : Chk Compact := do
   let c := increaseLen c0 (c0.len + 8 * slice.length)
   slice.foldlM pushU8 c
 
+/-- `push_bits`, first part (l.186-189): fill the current byte up to its boundary -/
+def pushHead (c : Compact) (bits len remSpace : Nat) : Chk Compact :=
+  if remSpace != 0 then do
+    let kr ← keep 187 remSpace
+    let a ← rd 187 c (c.len / 8)
+    let c ← wr 187 c (c.len / 8) (a ||| (((bits >>> (len - remSpace)) &&& kr) % 256))
+    pure { c with len := c.len + remSpace }
+  else pure c
+
+/-- `push_bits`, middle part (l.191-193): `for i in (8..=len - rem_space).rev().step_by(8)`:
+i = m, m-8, … while i ≥ 8, with m = len - rem_space -/
+def pushMiddle (c : Compact) (bits m : Nat) : Chk Compact :=
+  (List.range (m / 8)).foldlM (fun c j => pushU8 c ((bits >>> (m - 8 * j - 8)) % 256)) c
+
+/-- `push_bits`, last part (l.195-203): the remaining `< 8` bits go to the top of the next byte with `+=` -/
+def pushTail (c : Compact) (bits remaining : Nat) : Chk Compact :=
+  if remaining == 0 then pure c
+  else do
+    let kr ← keep 202 remaining
+    let a ← rd 202 c (c.len / 8)
+    -- `<<` on a u8 drops the high bits; `+=` on a u8 is overflow-checked
+    let add := ((((bits &&& kr) % 256) <<< (8 - remaining))) % 256
+    let _ ← guard (a + add < 256) (.addOverflow 202)
+    let c ← wr 202 c (c.len / 8) ((a + add) % 256)
+    pure { c with len := c.len + remaining }
+
 /-- `push_bits` (l.171-204) -/
 def pushBits (c0 : Compact) (bits0 len : Nat) : Chk Compact := do
   let c := increaseLen c0 (c0.len + len)
@@ -73,26 +99,9 @@ def pushBits (c0 : Compact) (bits0 len : Nat) : Chk Compact := do
     let c ← wr 181 c first (a ||| ((bits <<< (remSpace - len)) % 256))
     pure { c with len := c.len + len }
   else
-    let c ← (if remSpace != 0 then do
-        let kr ← keep 187 remSpace
-        let a ← rd 187 c first
-        let c ← wr 187 c first (a ||| (((bits >>> (len - remSpace)) &&& kr) % 256))
-        pure { c with len := c.len + remSpace }
-      else pure c)
-    -- `for i in (8..=len - rem_space).rev().step_by(8)`: i = m, m-8, … while i ≥ 8, m = len - rem_space
-    let m := len - remSpace
-    let c ← (List.range (m / 8)).foldlM (fun c j => pushU8 c ((bits >>> (m - 8 * j - 8)) % 256)) c
-    let remaining := m % 8
-    if remaining == 0 then pure c
-    else
-      let kr ← keep 202 remaining
-      let a ← rd 202 c (c.len / 8)
-      let add := ((bits &&& kr) % 256) <<< (8 - remaining)
-      -- `<<` on a u8 drops the high bits; `+=` on a u8 is overflow-checked
-      let add := add % 256
-      let _ ← guard (a + add < 256) (.addOverflow 202)
-      let c ← wr 202 c (c.len / 8) ((a + add) % 256)
-      pure { c with len := c.len + remaining }
+    let c ← pushHead c bits len remSpace
+    let c ← pushMiddle c bits (len - remSpace)
+    pushTail c bits ((len - remSpace) % 8)
 
 /-- `fill` (l.209-219): `for (i, _) in (self.len..self.data.len()).step_by(8).enumerate()` — the
 range end is the *byte* length of the buffer while `len` counts bits -/
